@@ -54,7 +54,8 @@ def dyn_shapes(V, seed, which):
     if which == "d1":
         return (2 * V + 3,), ([V + 1, V, 2 * V + 1][seed % 3],)
     if which == "d2":
-        return (4, V + 3), (2, [V, V + 1, V + 2][seed % 3])
+        # 2V+1 columns: a strided (step 2) row can still hold V+1 elements, so the data_setter route is reachable for every V
+        return (4, 2 * V + 1), (2, [V, V + 1, V + 2][seed % 3])
     if which == "d3":
         return (2, 3, 2 * V), (2, 2, V)
     return (2, 2, 2, V + 1), (1, 2, 2, V)
@@ -115,7 +116,7 @@ def sym_groups(tier, seed):
                                "defs": ["-DFASTOR_USE_VECTORISED_EXPR_ASSIGN"] if vea else [], "calls": calls})
         # fixed views: quick = two members of the family per configuration, rotating with the seed
         fam = fixed_family(V)
-        pick = [fam[(2 * ci + seed + k) % 6] for k in range(1)] if quick else fam
+        pick = [fam[(2 * ci + seed + k) % 6] for k in range(1)] if quick else [fam[(ci + k) % len(fam)] for k in range(0, 10, 2)]
         if quick and ci < 3:
             pick.append(fam[(2 * ci + seed + 3) % 6])
         for (name, dims, fseqs, vea) in pick:
@@ -162,8 +163,8 @@ def real_groups(tier, seed):
                 ci += 1
                 V = G.vwidth(isa, sz)
                 whichs = [("d1", "d2", "d3")[(ci + seed) % 3]] if quick else ["d1", "d2", "d3"]
-                for which in whichs:
-                    for vea in ([(ci + seed) % 2] if quick else [0, 1]):
+                for wi, which in enumerate(whichs):
+                    for vea in ([(ci + seed) % 2] if quick else [(ci + wi) % 2]):
                         dims, rd = dyn_shapes(V, seed + ci, which)
                         r2 = random.Random(rng.random())
                         sc = dyn_scripts(dims, rd, V, r2, 60 if quick else 600, 30 if quick else 120, 30 if quick else 200, False, ops=G.OPS5)
@@ -172,7 +173,7 @@ def real_groups(tier, seed):
                                        "defs": ["-ffp-contract=off"] + (["-DFASTOR_USE_VECTORISED_EXPR_ASSIGN"] if vea else []),
                                        "pre": "", "calls": calls})
                 fam = fixed_family(V)
-                pick = ([fam[(ci + seed) % len(fam)]] if (ci + seed) % 2 == 0 else []) if quick else fam
+                pick = ([fam[(ci + seed) % len(fam)]] if (ci + seed) % 2 == 0 else []) if quick else [fam[(ci + k) % len(fam)] for k in (0, 3, 6)]
                 for (name, dims, fseqs, vea) in pick:
                     r2 = random.Random(rng.random())
                     G.REVERSED_P[0] = 0.0
